@@ -15,6 +15,7 @@ A2 = np.array([5.0, -4.0, 3.0, 2.0, np.nan, 0.0])
 L1 = np.array([0, 1, 0, 1, 2, 2])
 L2 = np.array([2, 2, 1, 0, 1, 0])
 L_CONF = np.array([0, 0, 1, 1, 2, 2])
+A3 = np.array([3, -1, 4, 1, -5, 9])          # integer data
 
 BASE = dict(array="A1", labels="L1", func="nanvar", ddof=0, q=None, min_count=1, fill_value=np.nan, dtype=None, method="map-reduce",
             engine="numpy", sort=True, reindex=None, expected=[0, 1, 2], chunks=2)
@@ -27,11 +28,38 @@ VARIANTS = {
 QBASE = dict(BASE, func="nanquantile", labels="L_CONF", method="blockwise", q=0.25, ddof=None, min_count=None)
 ARGBASE = dict(BASE, func="nanargmax", min_count=None, fill_value=-1, ddof=None)
 SCANBASE = dict(api="scan", array="A1", labels="L1", func="nancumsum", chunks=2)
-UNKBASE = dict(BASE, expected=None, by_dask=True, fill_value=None, min_count=None, func="nansum", ddof=None)
+UNKBASE = dict(BASE, expected=None, by_dask=True, fill_value=None, min_count=None, func="nansum", ddof=None, with_groups=True)
 
 
 def arrays():
-    return {"A1": A1.copy(), "A2": A2.copy(), "L1": L1.copy(), "L2": L2.copy(), "L_CONF": L_CONF.copy()}
+    return {"A1": A1.copy(), "A2": A2.copy(), "L1": L1.copy(), "L2": L2.copy(), "L_CONF": L_CONF.copy(), "A3": A3.copy()}
+
+
+_OBJECTS = {}
+
+
+def func_object(spec):
+    """an Aggregation INSTANCE, the same object for every call of the process: 'registry:<name>' is the library's own
+    blueprint (flox.aggregations.AGGREGATIONS[name]) handed in as an object, 'user:<name>' a user-defined aggregation"""
+    if spec not in _OBJECTS:
+        kind, name = spec.split(":")
+        if kind == "registry":
+            from flox.aggregations import AGGREGATIONS
+
+            _OBJECTS[spec] = AGGREGATIONS[name]
+        else:
+            from . import userlib
+
+            _OBJECTS[spec] = userlib.USER_AGGS[name][0]
+    return _OBJECTS[spec]
+
+
+def objects_snapshot() -> str:
+    """structural snapshot of every Aggregation instance handed to flox so far"""
+    parts = []
+    for k in sorted(_OBJECTS):
+        parts.append((k, {kk: repr(vv) for kk, vv in sorted(vars(_OBJECTS[k]).items())}))
+    return hashlib.sha1(json.dumps(parts, sort_keys=True).encode()).hexdigest()[:16]
 
 
 def make(cfg, store=None):
@@ -48,6 +76,8 @@ def make(cfg, store=None):
     if cfg.get("api") == "scan":
         return groupby_scan(arr, by, func=cfg["func"])
     kw = dict(func=cfg["func"])
+    if cfg.get("func_obj"):
+        kw["func"] = func_object(cfg["func_obj"])
     if cfg.get("expected") is not None:
         kw["expected_groups"] = np.array(cfg["expected"])
     for k_src, k_dst in (("min_count", "min_count"), ("fill_value", "fill_value"), ("dtype", "dtype"), ("method", "method"), ("engine", "engine"), ("reindex", "reindex")):
@@ -62,7 +92,14 @@ def make(cfg, store=None):
         fk["q"] = cfg["q"]
     if fk:
         kw["finalize_kwargs"] = fk
-    return groupby_reduce(arr, by, **kw)[0]
+    res = groupby_reduce(arr, by, **kw)
+    if cfg.get("with_groups"):
+        # the labels belong to the result: for chunked labels without expected_groups they are lazy too
+        import dask.array as _da
+
+        g = res[1]
+        return _da.concatenate([res[0].astype(float), _da.asarray(g).astype(float)]) if hasattr(res[0], "dask") else np.concatenate([np.asarray(res[0], float), np.asarray(g, float)])
+    return res[0]
 
 
 def digest_arr(x) -> str:
